@@ -1,5 +1,7 @@
 """C06 — Alias resolution is total, all-or-nothing and cycle-safe on any import graph.
 
+G4 graphs over FOUR modules pkg/{__init__, a, b, c} with exactly one statement each (chains and cycles of length 4, a tail alias
+   entering a cycle from outside, wildcards feeding a cycle).
 G  graphs: modules pkg/{__init__, a, b}; every module is an ordered selection of statements from
    {def n, from pkg.a|pkg.b|pkg import n, from . import n, from pkg.a|pkg.b|pkg import * (self-wildcards included),
     from pkg.nope import n, import pkg.nope, __all__ = ['n']}; ALL graphs with <= 3 (quick) / 4 (thorough) statements in
@@ -40,8 +42,14 @@ MANIFEST = {
     "technique": "explicit-state model checking over import graphs and load/resolve histories on the real loader with invariants",
 }
 
-MODS = ["pkg", "pkg.a", "pkg.b"]
-FILES = {"pkg": "pkg/__init__.py", "pkg.a": "pkg/a.py", "pkg.b": "pkg/b.py"}
+MODS = ["pkg", "pkg.a", "pkg.b", "pkg.c"]  # a graph is a tuple of statement tuples, one per module (3 or 4 modules)
+FILES = {"pkg": "pkg/__init__.py", "pkg.a": "pkg/a.py", "pkg.b": "pkg/b.py", "pkg.c": "pkg/c.py"}
+
+
+def menu4():
+    """Four modules, at most one statement each: chains and cycles of length 4 with a tail entering from outside."""
+    return ["def x(): ...", "from pkg.a import x", "from pkg.b import x", "from pkg.c import x", "from pkg import x", "from . import x", "from pkg.nope import x",
+            "from pkg.a import *", "from pkg.b import *", "from pkg.c import *", "from pkg import *", "__all__ = ['x']"]
 
 
 def menu(names):
@@ -56,7 +64,8 @@ _BUDGET = {"quick": [(("x",), 3, 2)], "thorough": [(("x",), 4, 3), (("x", "y"), 
 
 
 def bounds(tier):
-    return {"graphs": [{"names": list(n), "total_statements": t, "per_module": p} for n, t, p in _BUDGET[tier]], "history_depth": 4 if tier == "quick" else 5,
+    return {"graphs": [{"names": list(n), "total_statements": t, "per_module": p} for n, t, p in _BUDGET[tier]],
+            "four_module_graphs": {"statements_per_module": 1, "menu": menu4()}, "history_depth": 4 if tier == "quick" else 5,
             "statement_menu": menu(("x",))}
 
 
@@ -79,6 +88,10 @@ def graphs(tier):
                                 if len(names) > 1:
                                     seen.add(g)
                                 yield g
+    m4 = [()] + [(st,) for st in menu4()]
+    for g in itertools.product(m4, repeat=4):
+        if sum(map(len, g)) == 4 or (tier == "thorough" and g[3]):
+            yield g  # (smaller ones over three modules are already in the first family)
 
 
 def shards(tier):
@@ -208,7 +221,7 @@ def _reduce(griffe, g, key):
     changed = True
     while changed:
         changed = False
-        for mi in range(3):
+        for mi in range(len(g)):
             for si in range(len(g[mi])):
                 g2 = tuple(tuple(s for j, s in enumerate(stmts) if not (i == mi and j == si)) for i, stmts in enumerate(g))
                 if any(k == key for k, _ in check_graph(griffe, g2)):
@@ -246,6 +259,8 @@ def run_graphs(griffe, part, tier):
             small = cache[sig]
             if key.startswith("partial/") and key.endswith("/wildcard-expansion"):
                 full = key  # one root cause (expand_wildcards wraps a not-yet-resolved alias in an alias born resolved), whatever the graph
+            elif len(small) == 4:
+                full = f"{key}/{_gkey(small)}"
             else:
                 swapped = tuple(tuple(st.replace("pkg.a", "pkg.@").replace("pkg.b", "pkg.a").replace("pkg.@", "pkg.b") for st in stmts) for stmts in (small[0], small[2], small[1]))
                 full = f"{key}/{min(_gkey(small), _gkey(swapped))}"  # a and b are interchangeable
